@@ -55,20 +55,20 @@ type report struct {
 var rep = report{Counts: map[string]int{}}
 
 type fileCtx struct {
-	pkg     *packages.Package
-	file    *ast.File
-	tokFile *token.File
-	rel     string
-	src     []byte
-	edits   []edit
-	passM   bool
-	passY   bool
-	everyStmt bool // yield before every statement (anchored files)
-	fieldAssign bool // rule (c)
-	entryAll  bool // rule (d): every function entry
+	pkg           *packages.Package
+	file          *ast.File
+	tokFile       *token.File
+	rel           string
+	src           []byte
+	edits         []edit
+	passM         bool
+	passY         bool
+	everyStmt     bool // yield before every statement (anchored files)
+	fieldAssign   bool // rule (c)
+	entryAll      bool // rule (d): every function entry
 	entryExported bool
-	seq     int
-	usedXMaps map[string]string // local import name -> a symbol to keep it referenced
+	seq           int
+	usedXMaps     map[string]string // local import name -> a symbol to keep it referenced
 }
 
 func (fc *fileCtx) off(p token.Pos) int { return fc.tokFile.Offset(p) }
